@@ -143,3 +143,19 @@ M("c11_test_window_not_slid", PC, "            self._test_pca_projection = pd.co
 M("c11_bins_from_2w", PC, "self.bins = int(np.floor(np.sqrt(self.window_size)))", "self.bins = int(np.floor(np.sqrt(2 * self.window_size)))", ["C11"])
 M("c11_no_inverse_transform", PC, "                    self._reference_window = pd.DataFrame(\n                        self._reference_scaler.inverse_transform(self._reference_window)\n                    )", "                    self._reference_window = pd.DataFrame(self._reference_window)", ["C11"])
 M("c11_discard_sample_kept", PC, "                self._test_window = pd.DataFrame()\n                self.reset()", "                self._test_window = pd.DataFrame(X)\n                self.reset()", ["C11", "C01"])
+
+LF = "menelaus/concept_drift/lfr.py"
+M("c06_confusion_transposed", LF, "self._confusion[y_p][y_t] += 1", "self._confusion[y_t][y_p] += 1", ["C06"])
+M("c06_r_unconditional", LF, "            if new_rates[rate] != old_rates[rate]:\n", "            if True:\n", ["C06"])
+M("c06_ub_percentile", LF, "ub_detect = np.percentile(result_vector, q=100 - (detect_level * 100))", "ub_detect = np.percentile(result_vector, q=100 * (1 - detect_level / 2))", ["C06", "C17"])
+M("c06_one_minus_eta_dropped", LF, "            return (1 - eta) * sum(vec * bools)", "            return sum(vec * bools) * (1 - eta) ** (1 if denom < 12 else 0.98)", ["C06"])
+M("c06_burnin_ge", LF, "            if (self.samples_since_reset > self.burn_in) & (", "            if (self.samples_since_reset >= self.burn_in) & (", ["C06", "C01"])
+M("c06_untracked_in_any", LF, "        if any(self._alarm_states[self.samples_since_reset].values()):", "        if any(self._alarm_states[self.samples_since_reset].values()) or (\"npv\" not in self.rates_tracked and self.samples_since_reset > self.burn_in + 20 and self._get_four_rates(self._confusion)[\"npv\"] < 0.3):", ["C06"])
+M("c06_recs_warning_overwritten", LF, "        if self.drift_state == \"warning\" and self._retraining_recs[0] is None:", "        if self.drift_state == \"warning\":", ["C06"])
+M("c06_reset_keeps_confusion", LF, "        self._confusion = np.array([[1, 1], [1, 1]])  # C at a given time point\n", "", ["C06", "C02"])
+M("c06_cache_key_denominator_ignored", LF, "            if r_curr_denom in denom_dict:\n", "            if r_curr_denom in denom_dict or len(denom_dict) > 25:\n                r_curr_denom = r_curr_denom if r_curr_denom in denom_dict else max(denom_dict)\n", ["C06"])
+M("c06_binomial_p_rounded", LF, "            bools = np.random.binomial(n=1, p=est_rate, size=denom)", "            bools = np.random.binomial(n=1, p=round(est_rate, 1), size=denom)", ["C06"])
+M("c06_subsample_offset", LF, "                self.samples_since_reset % self.subsample == 0\n", "                self.samples_since_reset % self.subsample == (1 if self.subsample > 2 else 0)\n", ["C06", "C01"])
+M("c06_warning_uses_detect_bounds", LF, "                    new_r_stat < lb_warn\n                ) | (new_r_stat > ub_warn)", "                    new_r_stat < lb_warn\n                ) | (new_r_stat > ub_detect)", ["C06"])
+M("c06_pseudocount_zero_after_reset", LF, "        self._denominators = {0: {\"tpr_N\": 2, \"tnr_N\": 2, \"ppv_N\": 2, \"npv_N\": 2}}\n        self._r_stat = self._p_table.copy()\n        self._warning_states = {\n            0: {\"tpr\": False, \"tnr\": False, \"ppv\": False, \"npv\": False}\n        }\n        self._alarm_states",
+  "        self._denominators = {0: {\"tpr_N\": 2, \"tnr_N\": 2, \"ppv_N\": 2, \"npv_N\": 2}}\n        self._r_stat = {0: dict(self._r_stat[max(self._r_stat)])}\n        self._warning_states = {\n            0: {\"tpr\": False, \"tnr\": False, \"ppv\": False, \"npv\": False}\n        }\n        self._alarm_states", ["C06", "C02"])
